@@ -137,7 +137,7 @@ Proof. intros H. rewrite N.mul_comm. apply N.mul_div_le. lia. Qed.
 
 Lemma div_mul_gt x a : 0 < a -> x < x / a * a + a.
 Proof.
-  intros H. pose proof (N.div_mod x a ltac:(lia)). pose proof (N.mod_lt x a ltac:(lia)). nia.
+  intros H. pose proof (N.div_mod x a ltac:(lia)). pose proof (N.mod_lt x a ltac:(lia)). lia.
 Qed.
 
 Lemma div_mul_mod x a : 0 < a -> (x / a * a) mod a = 0.
@@ -414,6 +414,24 @@ Proof.
   unfold MI_SEGMENT_SIZE, MI_SEGMENT_SLICE_SIZE, MI_SLICES_PER_SEGMENT in *. lia.
 Qed.
 
+Lemma align16_id x : x mod 16 = 0 -> (x + 15) / 16 * 16 = x.
+Proof. intros H. lia. Qed.
+
+Lemma mod16_of_mod a b : 0 < b -> b mod 16 = 0 -> a mod 16 = 0 -> (a mod b) mod 16 = 0.
+Proof.
+  intros H0 Hb Ha.
+  pose proof (N.div_mod b 16 ltac:(lia)) as E. rewrite Hb, N.add_0_r in E.
+  assert (Hq : b / 16 <> 0) by (intros Hq; rewrite Hq in E; lia).
+  rewrite E. rewrite N.mod_mul_r by (try assumption; lia).
+  rewrite Ha, N.add_0_l. rewrite N.mul_comm. apply N.mod_mul. lia.
+Qed.
+
+Lemma mod16_add_mul x c y : x mod 16 = 0 -> y mod 16 = 0 -> (x + c * y) mod 16 = 0.
+Proof.
+  intros Hx Hy. rewrite N.add_mod by lia. rewrite (N.mul_mod c y) by lia.
+  rewrite Hx, Hy, N.mul_0_r. reflexivity.
+Qed.
+
 (* Block alignment of the page start.  It holds for block sizes that are multiples of 16 and for
    bs = 8 (more generally for divisors of 16), but NOT for the other multiples of 8
    (24, 40, 56, ...): there the `align_up (.., 16)` after the adjustment can add 8 bytes; see
@@ -432,16 +450,14 @@ Proof.
   set (psize := cnt * MI_SEGMENT_SLICE_SIZE) in *.
   assert (Hp16 : pstart mod 16 = 0).
   { unfold pstart, MI_SEGMENT_SIZE, MI_SEGMENT_SLICE_SIZE in *. lia. }
+  clearbody pstart psize. clear Hal Hw Hic Hc.
   destruct Hbs as [Hbs| ->].
   - (* bs a multiple of 16 *)
     pose proof (N.div_mod pstart bs ltac:(lia)) as Hdm.
     pose proof (N.mod_lt pstart bs ltac:(lia)) as Hr.
     set (q := pstart / bs) in *. set (r := pstart mod bs) in *.
     assert (Hr16 : r mod 16 = 0).
-    { pose proof (N.div_mod bs 16 ltac:(lia)) as Hb. rewrite Hbs, N.add_0_r in Hb.
-      pose proof (N.div_mod pstart 16 ltac:(lia)) as Hp. rewrite Hp16, N.add_0_r in Hp.
-      assert (Er : r = (pstart / 16 - bs / 16 * q) * 16) by nia.
-      rewrite Er. apply N.mod_mul. lia. }
+    { unfold r. apply mod16_of_mod; assumption. }
     (* off0 *)
     assert (Hoff0 : exists m, pstart + pstart_off0 pstart psize bs = m * bs /\
                               pstart_off0 pstart psize bs mod 16 = 0).
@@ -462,13 +478,9 @@ Proof.
       destruct (bs <=? 512); [exists 1; lia|exists 0; lia]. }
     destruct Hoff1 as (c & Hc1). rewrite Hc1.
     assert (H16 : (off0 + c * bs) mod 16 = 0).
-    { pose proof (N.div_mod bs 16 ltac:(lia)) as Hb. rewrite Hbs, N.add_0_r in Hb.
-      pose proof (N.div_mod off0 16 ltac:(lia)) as Ho. rewrite Ho16, N.add_0_r in Ho.
-      assert (Eo : off0 + c * bs = (off0 / 16 + c * (bs / 16)) * 16) by nia.
-      rewrite Eo. apply N.mod_mul. lia. }
-    assert (Eso : (off0 + c * bs + 15) / 16 * 16 = off0 + c * bs) by lia.
-    rewrite Eso.
-    replace (pstart + (off0 + c * bs)) with ((m + c) * bs) by nia.
+    { apply mod16_add_mul; assumption. }
+    rewrite (align16_id _ H16).
+    rewrite N.add_assoc, Hm, <- N.mul_add_distr_r.
     apply N.mod_mul. lia.
   - (* bs = 8 : pstart is 8-aligned, so adjust = 0, off1 = 24, start_offset = 32 *)
     assert (Hp8 : pstart mod 8 = 0) by lia.
